@@ -65,6 +65,31 @@ Definition sat_schema (c : numc) (v : Z) : bool :=
                end in
   lower && upper && opt_ok (c_mult c) (fun m => (v mod m) =? 0).
 
+(* number members: bounds and values both in half units, nothing is truncated (confloat(...) / Field(...)
+   on a float member); multipleOf on binary floats is outside the model *)
+Definition sat_schema_h (c : numc) (hv : Z) : bool :=
+  let lower := match c_xmin c with
+               | XBool true => opt_ok (c_min c) (fun b => b <? hv)
+               | XNum x => (x <? hv) && opt_ok (c_min c) (fun b => b <=? hv)
+               | _ => opt_ok (c_min c) (fun b => b <=? hv)
+               end in
+  let upper := match c_xmax c with
+               | XBool true => opt_ok (c_max c) (fun b => hv <? b)
+               | XNum x => (hv <? x) && opt_ok (c_max c) (fun b => hv <=? b)
+               | _ => opt_ok (c_max c) (fun b => hv <=? b)
+               end in
+  lower && upper.
+
+Definition ktranslate_h (c : numc) : kwargs :=
+  {| k_ge := c_min c; k_le := c_max c;
+     k_gt := match c_xmin c with XNum v => Some v | _ => None end;
+     k_lt := match c_xmax c with XNum v => Some v | _ => None end;
+     k_mult := None |}.
+
+Definition sat_model_h (k : kwargs) (hv : Z) : bool :=
+  opt_ok (k_ge k) (fun b => b <=? hv) && opt_ok (k_le k) (fun b => hv <=? b)
+  && opt_ok (k_gt k) (fun b => b <? hv) && opt_ok (k_lt k) (fun b => hv <? b).
+
 Definition even_opt (o : option Z) : bool := opt_ok o Z.even.
 Definition integral (c : numc) : bool :=
   even_opt (c_min c) && even_opt (c_max c)
